@@ -51,6 +51,10 @@ def _gaps(tag, i, a):
     the following block by the size such a block reports.  (Frame 0 column 0 stays: it identifies the
     block.)  a: (frames,) or (frames, components)"""
     mode = (tag + i) % 7
+    if mode == 1:
+        return a.astype("<f8")            # the caller's arrays need not be float32 ...
+    if mode == 2:
+        return a.astype(">f4")            # ... nor little-endian
     if len(a) < 3 or mode < 3:
         return a
     a = a.copy()
@@ -85,7 +89,8 @@ def make_block(rt, k, tag, cd=None, md=None):
         if tag % 4 in (0, 3):
             # links: stored in the format with links, carried along but not stored in the other one
             from basictdf.tdfData3D import LinkType
-            b.links = np.array([(0, tag % 50), (1, 2)], dtype=LinkType.btype)
+            pairs = [(0, tag % 50), (1, 2)]
+            b.links = pairs if tag % 8 >= 4 else np.array(pairs, dtype=LinkType.btype)   # a plain list of pairs, or records
     elif rt == 11:
         b = EMG(1000, NF + 49, 0.0)
         for i in range(k):
